@@ -1572,6 +1572,12 @@ class TransactionBuilder:
         for utxo in self.collaterals:
             total_input += utxo.output.amount
 
+        if len(self.collaterals) > self.context.protocol_param.max_collateral_inputs:
+            raise ValueError(
+                f"Number of collateral inputs {len(self.collaterals)} exceeds the protocol limit "
+                f"({self.context.protocol_param.max_collateral_inputs})."
+            )
+
         if collateral_amount > total_input.coin:
             raise ValueError(
                 f"Minimum collateral amount {collateral_amount} is greater than total "
